@@ -21,6 +21,10 @@ def install(ex):
         S[p + '.verifAssert'] = verif_assert
         S[p + '.verifReach'] = verif_reach
         S[p + '.verifConcretize'] = verif_concretize
+        S[p + '.bOr'] = lambda ex, a, i: bor(a[0], a[1])
+        S[p + '.bAnd'] = lambda ex, a, i: band(a[0], a[1])
+        S[p + '.bImplies'] = lambda ex, a, i: bor(bnot(a[0]), a[1])
+        S[p + '.bIte64'] = lambda ex, a, i: ite(a[0], a[1], a[2], 64)
     S['errors.New'] = errors_new
     S['errors.Is'] = errors_is
     S['errors.As'] = errors_as
